@@ -229,6 +229,11 @@ impl SendChannelUnreliable {
     pub fn verif_memory(&self) -> usize {
         self.memory_usage_bytes
     }
+
+    /// Moves the id counter of sliced messages forward, as if that many sliced messages had been sent.
+    pub fn verif_warp(&mut self, message_id: u64) {
+        self.sliced_message_id = message_id;
+    }
 }
 
 #[cfg(renet_verif)]
